@@ -53,3 +53,33 @@ Theorem C04_keep_def : forall (HO : hops) (bs : N) (q : ranges) (size : N) (i : 
   end.
 Proof. exact keep_def. Qed.
 Print Assumptions C04_keep_def.
+
+(* ======== Final composition (proofs in Proofs/FinalEnc.v, Proofs/FinalBao.v) ======== *)
+From BaoV Require Import Proofs.FinalEnc Proofs.FinalBao.
+
+(* the parents of the encoder's plan are persisted nodes of the Shape: an intact store (C03_created_store_intact)
+   serves every load the encoder makes *)
+Theorem C04_enc_nodes_persisted : forall (size bs : N) (q : ranges), size <= 2 ^ 63 -> bs <= 10 ->
+  wf_ranges q = true ->
+  forall nd, In nd (enc_nodes size bs q) -> In nd (sp_pre_nodes size bs) /\ sp_persisted size bs nd = true.
+Proof. exact c04_enc_nodes_persisted. Qed.
+Print Assumptions C04_enc_nodes_persisted.
+
+(* item_nodes l (Proofs/FinalBao.v) = the nodes of the IParent items of l, in order.
+   The parent items of the honest encoding are the parents of the decoder's plan (block size 0, min level bs) *)
+Theorem C04_honest_nodes : forall (HO : hops) (data : bytes HO) (bs : N) (q : ranges),
+  wf_ranges q = true -> blen HO data <= 2 ^ 63 ->
+  item_nodes (honest HO data bs q) = plan_nodes (pre_plan (blen HO data) 0 bs (truncate_ranges q (blen HO data))).
+Proof. exact c04_honest_nodes. Qed.
+Print Assumptions C04_honest_nodes.
+
+(* at block size 0 nothing is pruned (keep is constantly true) and the honest encoding carries a pair for
+   exactly the parents of the encoder's plan = the inner nodes of the selection: the plain bao layout *)
+Theorem C04_bs0_is_bao_layout : forall (HO : hops) (data : bytes HO) (q : ranges),
+  wf_ranges q = true -> blen HO data <= 2 ^ 63 ->
+  (forall i : item HO, keep HO 0 q (blen HO data) i = true) /\
+  filter (keep HO 0 q (blen HO data)) (honest HO data 0 q) = honest HO data 0 q /\
+  item_nodes (honest HO data 0 q) = enc_nodes (blen HO data) 0 q /\
+  item_nodes (honest HO data 0 q) = sel_nodes (blen HO data) 0 (sel q (blen HO data)).
+Proof. exact c04_bs0_is_bao_layout. Qed.
+Print Assumptions C04_bs0_is_bao_layout.
